@@ -756,9 +756,15 @@ impl LowerWithEnv for Ty {
                     TypeLookup::Closure(id) => tykind!(env.closure_kind(id), Closure, id),
                     TypeLookup::Opaque(id) => tykind!(env.opaque_kind(id), OpaqueType, id),
                     TypeLookup::Coroutine(id) => tykind!(env.coroutine_kind(id), Coroutine, id),
-                    TypeLookup::Foreign(_) | TypeLookup::Trait(_) => {
-                        panic!("Unexpected apply type")
+                    // A foreign type takes no parameters.
+                    TypeLookup::Foreign(_) => {
+                        return Err(RustIrError::IncorrectNumberOfTypeParameters {
+                            identifier: name.clone(),
+                            expected: 0,
+                            actual: args.len(),
+                        })
                     }
+                    TypeLookup::Trait(_) => return Err(RustIrError::NotStruct(name.clone())),
                 }
             }
 
